@@ -57,8 +57,18 @@ def _case(draw, unit):
                 need = dwtu.even_up(L)
             size = [max(s, need) if max(s, need) <= max(capd, need) else need
                     for s in size]
+    w2 = None
+    if dim == 2 and not unit.get('wave') and draw(st.integers(0, 3)) == 0:
+        # separate column / row wavelets (the documented 4-tuple form), constructed to differ
+        pick = draw(dwtu.wavelet_strategy(max_len=40))
+        w2 = pick if pick != w else dwtu.WAVES[(dwtu.WAVES.index(w) + 1) % len(dwtu.WAVES)]
+        L2 = dwtu.flen(w2)
+        size[1] = draw(dwtu.size_strategy(L2, J, cap=20))
+        if mode == 'periodization' and draw(st.integers(0, 99)) >= 15:
+            need2 = dwtu.even_up(L2) * 2 ** (J - 1)
+            size[1] = max(size[1], need2) if need2 <= 48 else size[1]
     return {
-        'dim': dim, 'wave': w, 'mode': mode, 'J': J, 'size': size,
+        'dim': dim, 'wave': w, 'wave_row': w2, 'mode': mode, 'J': J, 'size': size,
         'N': draw(st.sampled_from([1, 1, 2, 3])),
         'C': draw(st.sampled_from([1, 1, 2, 3])),
         'dtype': draw(st.sampled_from(['f64', 'f64', 'f64', 'f64', 'f32'])),
@@ -69,6 +79,8 @@ def _case(draw, unit):
         # synthesis (lo/a, hi/b), e.g. the JPEG2000 normalisation
         'fb_scale': draw(st.sampled_from([[1.0, 1.0], [1.0, 1.0], [2 ** 0.5, 2 ** -0.5], [2 ** -0.5, 2 ** 0.5], [2.0, 0.5],
                                           [0.5, 1.0], [1.0, -1.0], [3.0, 0.25]])),
+        # the module had a previous life with another wavelet of the same length (load_state_dict in between)
+        'reused': draw(st.integers(0, 4)) == 0,
         'rx': draw(core.recipe_strategy()),
         'k': draw(st.integers(0, 10**6)),
     }
@@ -81,6 +93,11 @@ def strategy(unit):
 def wave_arg(case, kind='dec'):
     """The documented forms of the `wave` argument: a name, a pywt.Wavelet, or a tuple of filter arrays."""
     import pywt
+    if case.get('wave_row'):
+        wc, wr = pywt.Wavelet(case['wave']), pywt.Wavelet(case['wave_row'])
+        if kind == 'dec':
+            return tuple(np.array(a) for a in (wc.dec_lo, wc.dec_hi, wr.dec_lo, wr.dec_hi))
+        return tuple(np.array(a) for a in (wc.rec_lo, wc.rec_hi, wr.rec_lo, wr.rec_hi))
     form = case.get('wave_form', 'name')
     if form == 'name':
         return case['wave']
@@ -90,9 +107,18 @@ def wave_arg(case, kind='dec'):
     return (np.array(w.dec_lo), np.array(w.dec_hi)) if kind == 'dec' else (np.array(w.rec_lo), np.array(w.rec_hi))
 
 
+def axis_lens(case):
+    """Filter length per axis."""
+    if case['dim'] == 1:
+        return [dwtu.flen(case['wave'])]
+    return [dwtu.flen(case['wave']), dwtu.flen(case.get('wave_row') or case['wave'])]
+
+
 def ref_wavelet(case):
     """The PyWavelets wavelet the case talks about: a built-in one, or (tuple form) a rescaled custom filter bank."""
     import pywt
+    if case.get('wave_row'):
+        return (pywt.Wavelet(case['wave']), pywt.Wavelet(case['wave_row']))
     w = pywt.Wavelet(case['wave'])
     a, b = case.get('fb_scale', [1.0, 1.0]) if case.get('wave_form') == 'tuple' else (1.0, 1.0)
     if (a, b) == (1.0, 1.0):
@@ -104,8 +130,19 @@ def ref_wavelet(case):
 def _module(case):
     from pytorch_wavelets import DWT1DForward, DWTForward
     cls = DWT1DForward if case['dim'] == 1 else DWTForward
+    msp = case.get('mode_spelling', case['mode'])
     with dwtu.default_dtype(dwtu.tdt(case['dtype'])):
-        return cls(J=case['J'], wave=wave_arg(case), mode=case.get('mode_spelling', case['mode']))
+        sib = dwtu.sibling(case['wave']) if (case.get('reused') and not case.get('wave_row')) else None
+        if sib is None:
+            return cls(J=case['J'], wave=wave_arg(case), mode=msp)
+
+        def warm(m):
+            n = max(case['size']) + 2 * dwtu.flen(case['wave'])
+            x = torch.ones([1, case['C']] + [n] * case['dim'], requires_grad=True)
+            yl, yh = m(x)
+            (yl.sum() + sum(h.sum() for h in yh)).backward()
+        return dwtu.reused_module(lambda: cls(J=case['J'], wave=wave_arg(case), mode=msp),
+                                  lambda: cls(J=case['J'], wave=sib, mode=msp), warm)
 
 
 def _flat(yl, yh):
@@ -118,13 +155,17 @@ def run_case(case):
     size = list(case['size'])
     L = dwtu.flen(w)
     f32 = case['dtype'] == 'f32'
-    per_axis = [dwtu.level_lengths(n, L, mode, J) for n in size]
-    in_d1 = any(dwtu.d1_analysis(ns, L, mode) for ns, _ in per_axis)
-    may_raise = any(dwtu.reflect_may_raise(ns, L, mode) for ns, _ in per_axis)
+    Ls = axis_lens(case)
+    per_axis = [dwtu.level_lengths(n, L_, mode, J) for n, L_ in zip(size, Ls)]
+    in_d1 = any(dwtu.d1_analysis(ns, L_, mode) for (ns, _), L_ in zip(per_axis, Ls))
+    may_raise = any(dwtu.reflect_may_raise(ns, L_, mode) for (ns, _), L_ in zip(per_axis, Ls))
+    L = max(Ls)
     r.label('dim%d' % dim, mode, 'f32' if f32 else 'f64', 'wave_as_' + case.get('wave_form', 'name'),
-            'mode_spelled_per' if case.get('mode_spelling') == 'per' else None)
+            'mode_spelled_per' if case.get('mode_spelling') == 'per' else None,
+            'reused_module' if case.get('reused') and dwtu.sibling(w) else None)
     r.label('odd' if any(n % 2 for n in size) else None,
-            'short<L' if any(n < L for n in size) else None,
+            'short<L' if any(n < L_ for n, L_ in zip(size, Ls)) else None,
+            'separate_row_col_wavelets' if case.get('wave_row') else None,
             'J>=2' if J >= 2 else None, 'C>1' if case['C'] > 1 else None,
             'N>1' if case['N'] > 1 else None,
             'nonsquare' if dim == 2 and size[0] != size[1] else None,
